@@ -16,7 +16,9 @@ import (
 	"fmt"
 	"math/big"
 	"os"
+	"path/filepath"
 	"reflect"
+	"runtime"
 	"unsafe"
 )
 
@@ -140,7 +142,8 @@ func vBig(name string, bits int) *big.Int { return vLookup(vSym(name)) }
 
 func vAssume(c bool) {
 	if !c {
-		panic(vAssumeFailed{"assumption not met by the replayed assignment"})
+		_, file, line, _ := runtime.Caller(1)
+		panic(vAssumeFailed{fmt.Sprintf("assumption not met by the replayed assignment (%s:%d)", filepath.Base(file), line)})
 	}
 }
 
@@ -151,6 +154,10 @@ func vAssert(id string, c bool) {
 		vMu.Unlock()
 	}
 }
+
+// vFinding: a specific failing history recognised by the harness; reported like
+// a failed assertion, execution continues.
+func vFinding(id string) { vAssert(id, false) }
 
 func vReach(id string) {}
 
